@@ -4,6 +4,7 @@ import (
 	"go/constant"
 	"go/token"
 	"go/types"
+	"strings"
 
 	"golang.org/x/tools/go/ssa"
 )
@@ -339,6 +340,9 @@ func sameParam(v ssa.Value, p *ssa.Parameter) bool {
 // sameParamD also sees through parameters of same-package helpers: a value that is the helper's parameter is "the same" as p
 // when every call site of the helper passes p (code moved verbatim into an extracted function keeps its meaning)
 func sameParamD(v ssa.Value, p *ssa.Parameter, d int) bool {
+	if p == nil {
+		return false
+	}
 	u := unspill(stripConv(v))
 	if u == ssa.Value(p) {
 		return true
@@ -378,4 +382,107 @@ func retVal(ret *ssa.Return, i int) ssa.Value {
 		}
 	}
 	return v
+}
+
+// argNamed: the value the call binds to the callee's parameter `name` — positionally when the callee declares a parameter
+// of that name, otherwise the value stored into field `name` of a struct argument ("introduce parameter object"
+// refactoring: f(a, b, c) -> f(opts{a: a, b: b, c: c})). idx is the position in callArgs to fall back to when the callee has
+// no body (interface call). Returns nil when nothing fits.
+func argNamed(call ssa.CallInstruction, name string, idx int) ssa.Value {
+	args := callArgs(call)
+	if g := call.Common().StaticCallee(); g != nil && g.Signature != nil {
+		params := g.Signature.Params()
+		for i := 0; i < params.Len() && i < len(args); i++ {
+			if params.At(i).Name() == name {
+				return args[i]
+			}
+		}
+		// a struct argument with a field of that name
+		for i, a := range args {
+			if i >= params.Len() {
+				break
+			}
+			st, ok := deref(params.At(i).Type()).Underlying().(*types.Struct)
+			if !ok {
+				continue
+			}
+			fi := -1
+			for j := 0; j < st.NumFields(); j++ {
+				if strings.EqualFold(st.Field(j).Name(), name) || strings.EqualFold(st.Field(j).Name(), strings.TrimPrefix(name, "reserve")) {
+					fi = j
+				}
+			}
+			if fi < 0 {
+				continue
+			}
+			// value: load of a local struct cell, or the cell's address
+			var cell ssa.Value
+			switch x := a.(type) {
+			case *ssa.UnOp:
+				cell = x.X
+			case *ssa.Alloc:
+				cell = x
+			}
+			if cell == nil {
+				continue
+			}
+			var out ssa.Value
+			for _, ref := range *cell.Referrers() {
+				if fa, ok := ref.(*ssa.FieldAddr); ok && fa.Field == fi {
+					for _, r2 := range *fa.Referrers() {
+						if stt, ok := r2.(*ssa.Store); ok && stt.Addr == ssa.Value(fa) {
+							out = stt.Val
+						}
+					}
+				}
+			}
+			if out != nil {
+				return out
+			}
+		}
+		return nil
+	}
+	if idx >= 0 && idx < len(args) {
+		return args[idx]
+	}
+	return nil
+}
+
+// isParamOrField: v is the parameter `name` of fn, or a load of field `name` of a struct-typed parameter of fn
+func isParamOrField(fn *ssa.Function, v ssa.Value, name string) bool {
+	u := unspill(stripConv(v))
+	if p, ok := u.(*ssa.Parameter); ok && p.Parent() == fn && p.Name() == name {
+		return true
+	}
+	var base ssa.Value
+	var fname string
+	switch x := u.(type) {
+	case *ssa.Field:
+		base, fname = x.X, fieldName(x.X.Type(), x.Field)
+	case *ssa.UnOp:
+		if fa, ok := x.X.(*ssa.FieldAddr); ok {
+			base, fname = fa.X, fieldName(fa.X.Type(), fa.Field)
+		}
+	}
+	if base == nil || !strings.EqualFold(fname, name) {
+		return false
+	}
+	b := unspill(stripConv(base))
+	if ld, ok := b.(*ssa.UnOp); ok {
+		b = unspill(ld)
+	}
+	if p, ok := b.(*ssa.Parameter); ok && p.Parent() == fn {
+		return true
+	}
+	// a struct parameter is spilled into a cell: &cell.field
+	if a, ok := base.(*ssa.Alloc); ok {
+		for _, ref := range *a.Referrers() {
+			if st, ok := ref.(*ssa.Store); ok && st.Addr == ssa.Value(a) {
+				if p, ok := st.Val.(*ssa.Parameter); ok && p.Parent() == fn {
+					return true
+				}
+			}
+		}
+	}
+	return false
 }
